@@ -13,6 +13,8 @@ import (
 	"strings"
 	"testing"
 
+	"github.com/DistCompiler/pgo/distsys/tla"
+
 	"verif/env"
 	"verif/envsys"
 	"verif/harness"
@@ -86,7 +88,9 @@ func runSystem(w *sim.World, wd *env.World, sys tlc.System, key string, st stepp
 func scenario(w *sim.World) {
 	last.valid = false
 	wd := env.NewWorld(w)
-	switch w.Choose(sim.KCfg, 2) {
+	switch w.Choose(sim.KCfg, 3) {
+	case 2:
+		runPBKVS(w, wd)
 	case 1:
 		// raftkvs: the bag network of the spec (any delivery order) in half of the runs
 		out := raftrun.Run(w, raftrun.Options{RecordTrace: true, MaxSteps: 200 + 150*w.Choose(sim.KCfg, 4), BagNetwork: w.Choose(sim.KCfg, 2) == 1, Small: true})
@@ -213,4 +217,23 @@ func TestWorker(t *testing.T) {
 			return map[string]any{"events": r.Events[:min(len(r.Events), 2)], "probes": r.Probes, "spec_steps": r.Counts["spec_steps"]}
 		},
 	})
+}
+
+func runPBKVS(w *sim.World, wd *env.World) {
+	S := tla.MakeString
+	mk := func(typ int32, kv ...string) tla.Value {
+		var fs []tla.RecordField
+		for i := 0; i < len(kv); i += 2 {
+			fs = append(fs, tla.RecordField{Key: S(kv[i]), Value: S(kv[i+1])})
+		}
+		return tla.MakeRecord([]tla.RecordField{{Key: S("typ"), Value: tla.MakeNumber(typ)}, {Key: S("body"), Value: tla.MakeRecord(fs)}})
+	}
+	// the spec's own initial clientInput (Init is checked too)
+	input := []tla.Value{mk(3, "key", "KEY1", "value", "VALUE1"), mk(3, "key", "KEY1", "value", "VALUE2"), mk(1, "key", "KEY1")}
+	nr := 1 + w.Choose(sim.KCfg, 3)
+	nc := 1 + w.Choose(sim.KCfg, 2)
+	explore := w.Choose(sim.KCfg, 2) == 1
+	p := envsys.NewPBKVS(wd, nr, nc, explore, input)
+	w.Event("system pbkvs replicas=%d clients=%d explore=%v", nr, nc, explore)
+	runSystem(w, wd, p.TLCSystem(repoRoot), fmt.Sprintf("pbkvs/%d/%d/%v", nr, nc, explore), p, nil, 150+100*nr*nc)
 }
